@@ -470,7 +470,7 @@ def c18_extra(R, tier, seed):
         if "runtime error:" in o2 or "AddressSanitizer" in o2:
             lp = os.path.join(od, "sizes-san-%d-%d-%s-%s.log" % (p[0], p[1], p[2], what))
             open(lp, "w").write(o2[-6000:])
-            R.violation(lp, "sanitizer report in the sizes harness (N=%d head=%d, %s header, %s): %s" % (p[0], p[1], p[2], what, vp.first_report_line(o2)))
+            R.violation(lp, "sanitizer report in the sizes harness (N=%d mode=%d[+1 head,+2 automatic], %s header, %s): %s" % (p[0], p[1], p[2], what, vp.first_report_line(o2)))
         elif rc2 == 0:
             n_ok += 1
     R.coverage["engines"]["sizes_under_sanitizers"] = {"state_counts": ns, "runs_clean": n_ok}
@@ -501,6 +501,67 @@ def c10_extra(R, tier, seed):
 
 
 # ===================================================================================================
+# configuration-order harness (C04 limit, C01 activation mode, C10 capacity): all 120 orders of the five configuration aliases
+
+CFGPERM_SRC = os.path.join(vc.HARNESS, "cfgperm", "cfgperm.cpp")
+
+
+def cfgperm_plan(tier, seed):
+    if tier == "thorough":
+        return [(L, v) for L in (1, 2, 3, 5, 7) for v in ("shipped", "dev")]
+    return [(1, "shipped"), (3, "dev"), (2 if seed % 2 else 5, "dev" if seed % 2 else "shipped")]
+
+
+def cfgperm_binaries(plan):
+    key = vc.sha(vc.repo_hash(), vc.hash_files([CFGPERM_SRC]))
+    d = os.path.join(vc.build_root(), "cfgperm-" + key[:10])
+    res, cmds, todo = {}, [], []
+    with vc.Lock(d + ".lock"):
+        os.makedirs(d, exist_ok=True)
+        for (L, variant) in plan:
+            exe = os.path.join(d, "cp-%d-%s" % (L, variant))
+            res[(L, variant)] = exe
+            if not os.path.exists(exe):
+                todo.append(exe)
+                cmds.append(["g++", "-std=gnu++17", "-O0", "-w", "-DFFSM2_ENABLE_ALL"] + vc.variant_flags(variant) + ["-DVF_L=%d" % L, CFGPERM_SRC, "-o", exe + ".tmp"])
+        outs = vc.parallel(cmds)
+        for exe, cmd, (rc, out) in zip(todo, cmds, outs):
+            if rc != 0:
+                log = exe + ".FAILED.log"
+                open(log, "w").write(" ".join(cmd) + "\n" + out[-6000:])
+                return False, res, log, out
+            os.rename(exe + ".tmp", exe)
+    return True, res, "", ""
+
+
+def cfgperm_check(R, n, tier, seed):
+    """the same settings spelled in any of the 120 alias orders describe the same machine (behavioural check of the aspect property n speaks about)"""
+    P = "C%02d" % n
+    od = vc.out_dir(P)
+    plan = cfgperm_plan(tier, seed)
+    ok, bins, log, out = cfgperm_binaries(plan)
+    if not ok:
+        print("INCONCLUSIVE: configuration-order harness does not build:", log)
+        print(out[-2500:])
+        return 2
+    outs = vc.parallel([[bins[p], "--prop", str(n)] for p in plan])
+    orders = calls = reached = 0
+    for p, (rc, out) in zip(plan, outs):
+        if rc != 0:
+            lp = os.path.join(od, "cfgperm-%d-%s.log" % p)
+            open(lp, "w").write(out)
+            first = next((l for l in out.splitlines() if l.startswith("CFGPERM-VIOLATION")), out.strip()[:300])
+            R.violation(lp, "configuration spelled in a different alias order behaves differently (L=%d, %s header): %s  [replay: %s --prop %d]" % (p[0], p[1], first[:500], bins[p], n))
+        for l in out.splitlines():
+            if l.startswith("cfgperm L="):
+                kv = dict(x.split("=") for x in l.split()[1:])
+                orders += int(kv["orders"]); calls += int(kv["calls"]); reached += int(kv["limit_reached"])
+    R.coverage["evaluations"] += calls
+    R.coverage["engines"]["config_alias_order_sweep"] = {"machines": orders, "limits": sorted(set(p[0] for p in plan)), "driven_calls": calls, "calls_reaching_exactly_L_rounds": reached, "exhaustive_over_the_120_orders": True}
+    return 0
+
+
+# ===================================================================================================
 # sizes harness (C14, C12 sweep)
 
 SIZES_SRC = os.path.join(vc.HARNESS, "sizes", "sizes.cpp")
@@ -508,7 +569,7 @@ BOUNDARY_N = [1, 2, 3, 4, 5, 7, 8, 9, 15, 16, 17, 31, 32, 33, 63, 64, 65, 127, 1
 
 
 def sizes_plan(tier, seed):
-    """list of (N, head, variant)"""
+    """list of (N, mode, variant); mode bit 0 = root head, bit 1 = automatic activation (else manual)"""
     rng = random.Random(seed * 31 + 5)
     plan = []
     if tier == "thorough":
@@ -516,12 +577,17 @@ def sizes_plan(tier, seed):
             plan.append((n, n % 2, "shipped" if (n // 2) % 2 == 0 else "dev"))
             if n in BOUNDARY_N:
                 plan.append((n, 1 - n % 2, "dev" if (n // 2) % 2 == 0 else "shipped"))
+            if n in BOUNDARY_N or n >= 120 or n % 4 == 0:
+                plan.append((n, 2 + (n // 3) % 2, "dev" if n % 2 == 0 else "shipped"))
     else:
         for i, n in enumerate(BOUNDARY_N):
             plan.append((n, n % 2, "shipped" if i % 2 == 0 else "dev"))
         plan += [(1, 0, "dev"), (2, 1, "shipped"), (255, 0, "shipped"), (3, 0, "dev")]
+        # automatic activation (no inactive form; a different save path)
+        plan += [(1, 3, "shipped"), (2, 2, "dev"), (5, 3, "dev"), (64, 2, "shipped"), (65, 3, "dev"), (128, 3, "shipped"), (129, 2, "shipped"), (255, 3, "dev")]
         for n in rng.sample([x for x in range(6, 120) if x not in BOUNDARY_N], 6):
-            plan.append((n, rng.randrange(2), rng.choice(["shipped", "dev"])))
+            plan.append((n, rng.randrange(4), rng.choice(["shipped", "dev"])))
+        plan.append((rng.randrange(130, 254), 2 + rng.randrange(2), rng.choice(["shipped", "dev"])))
     return plan
 
 
@@ -539,7 +605,7 @@ def sizes_binaries(plan, san=False):
                 cxx = ["clang++", "-std=gnu++17", "-O0", "-w"] if n > 64 else ["g++", "-std=gnu++17", "-O0", "-w"]
                 if san:
                     cxx = ["clang++", "-std=gnu++17", "-O0", "-g", "-w", "-fsanitize=address,undefined", "-fno-sanitize-recover=undefined"]
-                cmds.append(cxx + vc.variant_flags(variant) + ["-DVF_N=%d" % n, "-DVF_HEAD=%d" % head, SIZES_SRC, "-o", exe + ".tmp"])
+                cmds.append(cxx + vc.variant_flags(variant) + ["-DVF_N=%d" % n, "-DVF_HEAD=%d" % (head & 1), "-DVF_AUTO=%d" % (head >> 1), SIZES_SRC, "-o", exe + ".tmp"])
         # big machines need ~1.5 GB each while compiling: limit the parallelism for them
         outs = vc.parallel(cmds, jobs=min(vc.NCPU, 12))
         for exe, cmd, (rc, out) in zip(todo, cmds, outs):
@@ -591,14 +657,14 @@ def c14(tier, seed):
     visited = 0
     for (n, head, variant, wp), (rc, out) in zip(metas, outs):
         if rc != 0:
-            R.violation(wp, "N=%d head=%d (%s header): %s  [replay: %s walk %s]" % (n, head, variant, out.strip()[:400], bins[(n, head, variant)], wp))
+            R.violation(wp, "N=%d mode=%d[+1 head,+2 automatic] (%s header): %s  [replay: %s walk %s]" % (n, head, variant, out.strip()[:400], bins[(n, head, variant)], wp))
         else:
             visited += n
     if not R.violations and c14_zoo(R, tier, seed) == 2:
         return 2
     R.coverage["evaluations"] += steps_total
     R.coverage["distinct_nontrivial"] += visited
-    R.coverage["samples"] = R.coverage["samples"][:2] + ["N=%d head=%d header=%s walk (first 12 ops): %s" % (m[0], m[1], m[2], " ; ".join(open(m[3]).read().splitlines()[:12])) for m in metas[:3]]
+    R.coverage["samples"] = R.coverage["samples"][:2] + ["N=%d mode=%d[+1 head,+2 automatic] header=%s walk (first 12 ops): %s" % (m[0], m[1], m[2], " ; ".join(open(m[3]).read().splitlines()[:12])) for m in metas[:3]]
     R.coverage["engines"]["sizes_walks"] = {"machines": len(plan), "state_counts": sorted(set(p[0] for p in plan)), "walk_steps": steps_total, "(N,k)_pairs_visited": visited}
     return R.finish("for each machine size N (thorough: every N in 1..255; quick: the boundary set %s plus seed-chosen extras), with and without a root head, both header variants alternating: compile-time stateId<St<I>>() == I for all I; "
                     "a seed-generated walk visits every k < N (random order, interleaved update/react/query/re-entry/exit+enter) and after each step checks that only St<k> (and the state just left) ran callbacks, activeStateId()==k, "
@@ -625,7 +691,7 @@ def c12_extra(R, tier, seed):
         if rc != 0:
             lp = os.path.join(od, "pairs-%d-%d-%s.log" % p)
             open(lp, "w").write(out)
-            R.violation(lp, "save/load sweep N=%d head=%d (%s header): %s  [replay: %s pairs]" % (p[0], p[1], p[2], out.strip()[:400], bins[p]))
+            R.violation(lp, "save/load sweep N=%d mode=%d[+1 head,+2 automatic] (%s header): %s  [replay: %s pairs]" % (p[0], p[1], p[2], out.strip()[:400], bins[p]))
         else:
             for l in out.splitlines():
                 if l.startswith("pairs ok"):
@@ -644,6 +710,8 @@ def setup_extra():
         r, _, log = container_binaries(variant, "san", BOUNDARY_SHARDS)
         ok = ok and r
     r, _, _, _ = sizes_binaries(sizes_plan("quick", vc.seed()))
+    r2, _, _, _ = cfgperm_binaries(cfgperm_plan("quick", vc.seed()))
+    ok = ok and r2
     for feats in RUNNER_MENU:
         for variant in ("shipped", "dev"):
             vc.zoo_binary(feats, variant, "gcc")
